@@ -350,6 +350,9 @@ def _simmon(m, ob):
     mm = _re.search(r'property=(C\d\d)', ob)
     prop = mm.group(1) if mm else None
     res = simmon.explore({prop} if prop else None)
+    if prop in ('C17', 'C03', 'C01', 'C04'):
+        r2 = simmon.explore_static({prop})
+        res = dict(runs=res['runs'] + r2['runs'], failures=res['failures'] + r2['failures'])
     fails = [f for f in res['failures'] if f[0] in (prop, 'RUN')]
     return dict(violated=bool(fails), bounded=True,
                 scope=f"{res['runs']} monitored simulations: {len(simmon.SCENARIOS)} observation plans x {len(simmon.WORKFLOWS)} workflow shapes x "
